@@ -21,7 +21,9 @@ SimplePool == {r \in ValidPool : r.ps = {} \/ r.us = {}}
 PlainPool == {r \in ValidPool : r.ps = {} /\ r.us = {}}
 \* quick: single records that are plain or carry the case-variant / sibling synonym of their own name
 TinyPool == PlainPool \cup {r \in SimplePool : (r.ps = {<<2>>} /\ r.p = <<1>>) \/ (r.us = {<<2>>} /\ r.u = <<1>>) \/ (r.ps = {<<3>>} /\ r.p = <<1>> /\ r.u = <<1>>)
-                                                  \/ (r.p = <<>> /\ r.ps = {<<3>>} /\ r.u \in {<<1>>, <<3>>})}
+                                                  \/ (r.p = <<>> /\ r.ps = {<<3>>} /\ r.u \in {<<1>>, <<3>>})
+                                                  \/ (r.p = <<3>> /\ r.ps = {<<2>>} /\ r.u = <<3>>)
+                                                  \/ (r.u = <<3>> /\ r.us = {<<2>>} /\ r.p = <<3>>)}
 Base1 == {<<r>> : r \in (IF Tier = "quick" THEN TinyPool ELSE ValidPool)}
 Base2 == {<<r1, r2>> : <<r1, r2>> \in {t \in PlainPool \X PlainPool :
               LexLT(t[1].p, t[2].p) /\ Construct(<<t[1], t[2]>>, D, TRUE).out = Ok}}
